@@ -47,9 +47,10 @@ def main():
     rc_demo_with, o1 = sh('go test -vet=off -count=1 -run TestSeededDemo ' + ' '.join(pkgs), wt)
     meta['ran'].append({'cmd': 'go test -run TestSeededDemo (change applied)', 'rc': rc_demo_with, 'tail': o1[-600:]})
     # (1c) demo without change
-    sh('git stash push -- ' + ' '.join(changed), wt)
+    # (no git stash: the stash is shared by all worktrees of a repository)
+    sh('git checkout -- ' + ' '.join(changed), wt)
     rc_demo_without, o2 = sh('go test -vet=off -count=1 -run TestSeededDemo ' + ' '.join(pkgs), wt)
-    sh('git stash pop', wt)
+    sh(f'git apply {out}/patch.diff', wt)
     meta['ran'].append({'cmd': 'go test -run TestSeededDemo (change stashed)', 'rc': rc_demo_without, 'tail': o2[-300:]})
     confirmed = rc_suite == 0 and rc_demo_with != 0 and rc_demo_without == 0
     meta['confirmed'] = confirmed
